@@ -165,7 +165,7 @@ func acyclic3(edges int) bool {
 }
 
 func c01LocatorJobs(tier string) []mc.Job {
-	jobs := []mc.Job{{Name: "C01-locator-seq", Weight: 5, Run: c01LocatorSeq}}
+	jobs := []mc.Job{{Name: "C01-locator-seq", Weight: 5, Run: c01LocatorSeq}, {Name: "C01-overridden-output", Run: c01Overridden}}
 	pb := 2
 	orders := [][3]int{{0, 1, 2}, {2, 1, 0}}
 	if tier == "thorough" {
@@ -204,4 +204,75 @@ func c01LocatorJobs(tier string) []mc.Job {
 		}})
 	}
 	return jobs
+}
+
+// C01 - "override one service": an output of a singleton multi-output registration is removed before
+// Build and its identity registered again by another singleton constructor (with and without a
+// dependency on the surviving output, which fixes the creation order either way round). Each of the
+// two constructors runs exactly once and every identity resolves to its own registration's instance.
+func c01Overridden(r *mc.Report) {
+	type ovCase struct {
+		Form   string `json:"form"`
+		Dep    string `json:"new_depends_on"`    // "", "D0" (surviving sibling), "P0" (an unrelated singleton)
+		OldDep bool   `json:"old_depends_on_p0"` // the multi-output constructor depends on P0
+		Which  int    `json:"removed_output"`
+	}
+	run := func(c ovCase) {
+		outs := []kit.Out{{T: "D0"}, {T: "D1"}}
+		removed, kept := outs[c.Which].T, outs[1-c.Which].T
+		r0 := kit.Reg{ID: 0, Life: "singleton", ResObj: c.Form == "resobj", Outs: outs}
+		if c.OldDep {
+			r0.Deps = []kit.Dep{{T: "P0"}}
+		}
+		r1 := kit.Reg{ID: 1, Life: "singleton", Outs: []kit.Out{{T: removed}}, RemoveFirst: []kit.Dep{{T: removed}}}
+		switch c.Dep {
+		case "D0":
+			r1.Deps = []kit.Dep{{T: kept}}
+		case "P0":
+			r1.Deps = []kit.Dep{{T: "P0"}}
+		}
+		spec := kit.Spec{Regs: []kit.Reg{{ID: 2, Life: "singleton", Outs: []kit.Out{{T: "P0"}}}, r0, r1,
+			{ID: 3, Life: "singleton", In: true, Outs: []kit.Out{{T: "P1"}}, Deps: []kit.Dep{{T: "D0"}, {T: "D1"}}},
+			{ID: 4, Life: "scoped", Outs: []kit.Out{{T: "P2"}}, Deps: []kit.Dep{{T: removed}}}}}
+		m := NewModel(&spec)
+		var final []Op
+		final = append(final, Op{Kind: "scope", Bind: "s1"})
+		for _, sc := range []string{"", "s1"} {
+			for _, t := range []string{"D0", "D1", "P1", "P2"} {
+				final = append(final, Op{Kind: "get", Scope: sc, T: t})
+			}
+		}
+		final = append(final, Op{Kind: "close", Scope: ""}, Op{Kind: "settle"})
+		sc := &Scenario{Name: "C01-overridden-output", Spec: spec, Final: final}
+		var e *Env
+		s := seqOnce(func() { sc.RunInto(&e) })
+		r.Executions++
+		r.States++
+		r.Validated++
+		r.Transitions += int64(len(e.Results) + 1)
+		r.Outcome(fmt.Sprintf("overridden %s removed=%s new-dep=%s old-dep=%v | %s", c.Form, removed, c.Dep, c.OldDep, e.Summary()))
+		fs := append(genericFindings(e, s), filterClauses("C01", lifeOracle(e, m))...)
+		for _, f := range fs {
+			r.Violate(f.F, f.Detail+fmt.Sprintf("\n  %s singleton (D0, D1); %s removed and registered again by another singleton (depends on %q)\n  %s", c.Form, removed, c.Dep, e.Summary()), c)
+		}
+		if len(r.Samples) < 2 {
+			r.Sample(map[string]any{"case": c, "observed": e.Summary()})
+		}
+	}
+	if r.Only != nil {
+		var c ovCase
+		if jsonUnmarshal(r.Only, &c) == nil && c.Form != "" {
+			run(c)
+		}
+		return
+	}
+	for _, form := range []string{"resobj", "multi"} {
+		for _, dep := range []string{"", "D0", "P0"} {
+			for _, od := range []bool{false, true} {
+				for which := 0; which < 2; which++ {
+					run(ovCase{Form: form, Dep: dep, OldDep: od, Which: which})
+				}
+			}
+		}
+	}
 }
